@@ -21,7 +21,7 @@ RULE = ('seeded random (F, Q, dt): n 1..24 (mpmath subset n<=12 in quick), F sta
 ASSUMPTIONS = ['mpmath Taylor expm at 50 digits is exact relative to float64',
                'rounding bound kappa = exp(|F|_2 dt) * (1+|F|dt)  (conditioning of the block exponential)']
 REQUIRED_OBS = ['scale_invariance_checked', 'returned_arrays_overwritten', 'float_route_compared', 'in_place_updates_between_calls', 'integer_typed_inputs', 'post_checked', 'mp_compared', 'composition_checked', 'zero_step_checked', 'ambient_calls_checked']
-REQUIRED_CLASSES = {'all': ['stable', 'unstable', 'nilpotent', 'triangular', 'diagonal', 'zero', 'random', 'singularQ', 'dt0', 'integer', 'ambient']}
+REQUIRED_CLASSES = {'all': ['stable', 'unstable', 'nilpotent', 'triangular', 'diagonal', 'zero', 'random', 'singularQ', 'dt0', 'integer', 'exchange', 'ambient']}
 EPS = np.finfo(float).eps
 C_PHI = 5e4   # scipy 1.18 expm is only ~1e-12 relative on small blocks (measured: 620 eps)
 C_Q = 5e4
@@ -132,6 +132,21 @@ def gen(case):
     n = int(rng.integers(1, nmax + 1))
     if cls == 'integer':
         return gen_integer(rng)
+    if cls == 'exchange':
+        n = int(rng.integers(2, 9))
+        W_ = rng.uniform(0, 1, (n, n)) * (rng.random((n, n)) < 0.6)
+        np.fill_diagonal(W_, 0.0)
+        W_[np.arange(n), (np.arange(n) + 1) % n] += 0.1          # every row exchanges with somebody: negative diagonal everywhere
+        F = W_ - np.diag(W_.sum(axis=1))
+        if rng.random() < 0.5:
+            F = F.T.copy()
+        G = rng.standard_normal((n, int(rng.integers(1, n + 1))))
+        Q = G @ G.T * 10 ** rng.uniform(-3, 1)
+        dt = float(rng.uniform(1.0, 6.0) / np.abs(np.diag(F)).min())
+        dt = min(dt, 20.0 / np.linalg.norm(F, 2))
+        k = int(rng.integers(2, 9))
+        w = rng.uniform(0.05, 1, k)
+        return F, Q, dt, (w / w.sum() * dt).tolist()
     kind = cls if cls in ('stable', 'unstable', 'nilpotent', 'triangular', 'diagonal', 'zero', 'random') else \
         str(rng.choice(['stable', 'unstable', 'nilpotent', 'triangular', 'diagonal', 'random']))
     if kind == 'zero':
@@ -204,18 +219,18 @@ def gen_integer(rng):
 
 
 def cases(seed, tier):
-    classes = ['stable', 'unstable', 'nilpotent', 'triangular', 'diagonal', 'zero', 'random', 'singularQ', 'dt0', 'integer']
+    classes = ['stable', 'unstable', 'nilpotent', 'triangular', 'diagonal', 'zero', 'random', 'singularQ', 'dt0', 'integer', 'exchange']
     out = []
     if tier == 'quick':
         for i in range(224):
-            out.append(dict(seed=int(seed) * 1000003 + i, cls=classes[i % 10], mp=True, nmax=10, cost=3))
+            out.append(dict(seed=int(seed) * 1000003 + i, cls=classes[i % 11], mp=True, nmax=10, cost=3))
         for i in range(224, 1200):
-            out.append(dict(seed=int(seed) * 1000003 + i, cls=classes[i % 10], mp=False, nmax=24, cost=1))
+            out.append(dict(seed=int(seed) * 1000003 + i, cls=classes[i % 11], mp=False, nmax=24, cost=1))
     else:
         for i in range(2100):
-            out.append(dict(seed=int(seed) * 1000003 + i, cls=classes[i % 10], mp=True, nmax=24, cost=8))
+            out.append(dict(seed=int(seed) * 1000003 + i, cls=classes[i % 11], mp=True, nmax=24, cost=8))
         for i in range(2100, 30000):
-            out.append(dict(seed=int(seed) * 1000003 + i, cls=classes[i % 10], mp=False, nmax=24, cost=1))
+            out.append(dict(seed=int(seed) * 1000003 + i, cls=classes[i % 11], mp=False, nmax=24, cost=1))
     # directed: the system on which the unnormalised Van Loan exponential lost the 4th digit of Qd (thorough seed 47; nilpotent n = 4, |F| dt = 4.6,
     # |Q| = 1.8e-19) - repaired in the repository, kept as a regression case in both tiers
     out.append(dict(seed=47009733, cls='nilpotent', mp=False, nmax=24, cost=1))
